@@ -1,7 +1,7 @@
 """C15 -- PIVOT BY is a lossless reshaping of a two-key aggregate result.
 
 Technique: bounded-exhaustive exploration (E-enum): ALL tables of <= L rows over a row alphabet
-(r in 3 ints) x (k in 3 strs) x (v in NULL/ints) [dense and sparse key combinations], x ALL layouts:
+(r in 3 ints whose numeric and textual orders differ: 2, 10, 3) x (k in 3 strs) x (v in NULL/ints) [dense and sparse key combinations], x ALL layouts:
 every permutation of the targets [r, k, agg1] and [r, k, agg1, agg2], PIVOT BY given by names or by
 1-based positions, in either pivot order (r,k) / (k,r)  -- 120 layouts.
 
@@ -35,12 +35,12 @@ COLS = [('r', int), ('k', str), ('v', int)]
 
 def alphabet(seed):
     vs = [(None, 1, 5), (None, 2, 7), (None, -3, 1)][seed % 3]
-    return list(itertools.product([1, 2, 3], ['x', 'y', 'z'], vs))
+    return list(itertools.product([2, 10, 3], ['x', 'y', 'z'], vs))
 
 
 def alphabet_small(seed):
     vs = [(None, 1), (None, 2), (None, -3)][seed % 3]
-    return list(itertools.product([1, 2], ['x', 'y', 'z'], vs))
+    return list(itertools.product([2, 10], ['x', 'y', 'z'], vs))
 
 
 def tables(L, alpha):
